@@ -71,6 +71,70 @@ pub fn programs(tier: &str) -> Vec<Program> {
     v
 }
 
+/// Tombstone-compaction family: the index (capacity 3) is FULL and holds a tombstone, so the
+/// insert of a new id runs compact_tombstones() (which renumbers internal ids) while the other
+/// writer is somewhere between its id lookup and its in-memory apply.
+pub fn compaction_programs(tier: &str) -> Vec<Program> {
+    let mut v: Vec<Program> = vec![
+        vec![vec![ins(4, 41)], vec![Op::Del { id: 2 }]],
+        vec![vec![ins(4, 41)], vec![Op::UpdMeta { id: 1, m: meta1("u", "1"), merge: true }]],
+        vec![vec![ins(4, 41)], vec![ins(1, 12)]],
+        vec![vec![ins(4, 41)], vec![Op::BatchDel { ids: vec![1, 2] }]],
+        vec![vec![ins(4, 41)], vec![Op::Del { id: 2 }], vec![Op::Snap]],
+        vec![vec![ins(4, 41)], vec![Op::Snap]],
+    ];
+    if tier == "thorough" {
+        v.push(vec![vec![ins(4, 41)], vec![ins(5, 51)]]);
+        v.push(vec![vec![ins(4, 41), Op::Del { id: 4 }], vec![Op::Del { id: 2 }, ins(2, 22)]]);
+        v.push(vec![vec![ins(4, 41)], vec![Op::UpdMeta { id: 2, m: meta1("u", "2"), merge: false }], vec![Op::Snap]]);
+    }
+    // both thread orders: the default schedule runs thread 0 first, so with a bound of one
+    // preemption "the other writer is interrupted mid-call by the compacting insert" is only
+    // reachable when the other writer is thread 0
+    let rev: Vec<Program> = v.iter().filter(|p| p.len() == 2).map(|p| vec![p[1].clone(), p[0].clone()]).collect();
+    v.extend(rev);
+    v
+}
+
+pub fn compaction_cfgs() -> Vec<BackendCfg> {
+    let mk = |snap: usize| BackendCfg { metric: "euclidean".into(), dim: 2, capacity: 3, snap_interval: snap, rotation: 1, fsync: "never".into() };
+    vec![mk(0), mk(2)]
+}
+
+/// every final reference state some serial order of the writers' operations can produce
+/// `failed[t][i]`: the call returned Err (e.g. "index full"): it is not an acknowledged write, so
+/// it may or may not have taken effect as far as THIS property is concerned (C03 decides that).
+fn serial_outcomes(init: &vcore::model::RefModel, prog: &Program, failed: &[Vec<bool>]) -> Vec<vcore::model::RefModel> {
+    fn rec(m: vcore::model::RefModel, threads: &[Vec<Op>], failed: &[Vec<bool>], pos: &mut Vec<usize>, out: &mut Vec<vcore::model::RefModel>) {
+        let mut any = false;
+        for t in 0..threads.len() {
+            if pos[t] < threads[t].len() {
+                any = true;
+                let op = &threads[t][pos[t]];
+                let was_failed = failed.get(t).and_then(|f| f.get(pos[t])).copied().unwrap_or(false);
+                pos[t] += 1;
+                if op.is_write() {
+                    let mut m2 = m.clone();
+                    let _ = m2.apply(op);
+                    rec(m2, threads, failed, pos, out);
+                    if was_failed {
+                        rec(m.clone(), threads, failed, pos, out);
+                    }
+                } else {
+                    rec(m.clone(), threads, failed, pos, out);
+                }
+                pos[t] -= 1;
+            }
+        }
+        if !any {
+            out.push(m);
+        }
+    }
+    let mut out = Vec::new();
+    rec(init.clone(), prog, failed, &mut vec![0; prog.len()], &mut out);
+    out
+}
+
 pub fn cfgs(tier: &str) -> Vec<BackendCfg> {
     let mk = |snap: usize, cap: usize| BackendCfg { metric: "euclidean".into(), dim: 2, capacity: cap, snap_interval: snap, rotation: 1, fsync: "never".into() };
     if tier == "thorough" {
@@ -81,7 +145,17 @@ pub fn cfgs(tier: &str) -> Vec<BackendCfg> {
 }
 
 pub fn check_program(cfg: &BackendCfg, prog: &Program, bound: usize, max_execs: usize, agg: &mut Agg) {
+    check_program_init(cfg, prog, "two", bound, max_execs, agg)
+}
+
+/// `init`: "two" = ids 1,2 live; "fulltomb" = capacity-3 index holding a deleted document in
+/// internal slot 0 and ids 1,2 live behind it (full, one tombstone that compaction must move past).
+pub fn check_program_init(cfg: &BackendCfg, prog: &Program, init: &str, bound: usize, max_execs: usize, agg: &mut Agg) {
     agg.programs += 1;
+    let mut init_model = vcore::model::RefModel::default();
+    let _ = init_model.apply(&Op::Ins { id: 1, v: vec![11.0, 1.0], m: meta1("w", "11") });
+    let _ = init_model.apply(&Op::Ins { id: 2, v: vec![21.0, 1.0], m: meta1("w", "21") });
+    let metric = vcore::metric_from(&cfg.metric);
     let ecfg = ExploreCfg { bound, max_execs, ..Default::default() };
     let progc = prog.clone();
     let cfgc = cfg.clone();
@@ -94,23 +168,36 @@ pub fn check_program(cfg: &BackendCfg, prog: &Program, bound: usize, max_execs: 
             let dir = scratch.path.join("d");
             let b = Arc::new(cfgc.open_fresh(&dir).expect("open"));
             // initial content: ids 1 and 2 (written before the race, partly snapshotted)
+            if init == "fulltomb" {
+                // the tombstone goes into internal slot 0, so that compaction MOVES the live
+                // documents (a tombstone in the last slot would leave their internal ids alone)
+                b.insert(9, vec![91.0, 1.0], vcore::to_hash(&meta1("w", "91"))).unwrap();
+            }
             b.insert(1, vec![11.0, 1.0], vcore::to_hash(&meta1("w", "11"))).unwrap();
             b.insert(2, vec![21.0, 1.0], vcore::to_hash(&meta1("w", "21"))).unwrap();
+            if init == "fulltomb" {
+                b.delete(9).unwrap();
+            }
+            let failed: Arc<std::sync::Mutex<Vec<Vec<bool>>>> = Arc::new(std::sync::Mutex::new(progc.iter().map(|t| vec![false; t.len()]).collect()));
             let bodies: Vec<Body> = progc
                 .iter()
-                .map(|ops| {
+                .enumerate()
+                .map(|(ti, ops)| {
                     let b = b.clone();
                     let ops = ops.clone();
+                    let failed = failed.clone();
                     Box::new(move || {
-                        for op in ops {
-                            let _ = apply_backend(&b, &op);
+                        for (oi, op) in ops.iter().enumerate() {
+                            if apply_backend(&b, op).is_err() {
+                                failed.lock().unwrap()[ti][oi] = true;
+                            }
                         }
                     }) as Body
                 })
                 .collect();
-            (bodies, (b, scratch))
+            (bodies, (b, scratch, failed))
         },
-        |res, (b, scratch), choices| {
+        |res, (b, scratch, failed), choices| {
             match &res.outcome {
                 Outcome::Completed => {}
                 Outcome::Deadlock(bl) => {
@@ -130,7 +217,7 @@ pub fn check_program(cfg: &BackendCfg, prog: &Program, bound: usize, max_execs: 
                 Err(_) => return true,
             };
             drop(b);
-            let ctx = |detail: String| json!({"engine":"schedmc","check":"C09","cfg":cfgc,"program":pname(&progc),"schedule":choices,"preemptions":res.preemptions,"detail":detail});
+            let ctx = |detail: String| json!({"engine":"schedmc","check":"C09","cfg":cfgc,"init":init,"program":pname(&progc),"schedule":choices,"preemptions":res.preemptions,"detail":detail});
             let rec = cfgc.recover(&dir).map(|rb: HnswBackend| dump_backend(&rb));
             use std::hash::{Hash, Hasher};
             let mut h = std::collections::hash_map::DefaultHasher::new();
@@ -143,6 +230,14 @@ pub fn check_program(cfg: &BackendCfg, prog: &Program, bound: usize, max_execs: 
             }
             if let Some((t, msg)) = res.panics.first() {
                 agg.viol.push(("C09|panic".into(), ctx(format!("thread {t} panicked: {msg}"))));
+                return agg.viol.map.keys().all(|k| known.is_known(k));
+            }
+            // the live collection itself must be what SOME serial order of the acknowledged
+            // operations produces (a write applied to the wrong internal slot is not)
+            let failed = failed.lock().unwrap().clone();
+            let allowed = serial_outcomes(&init_model, &progc, &failed);
+            if !allowed.iter().any(|m| vcore::model::dump_vs_model(metric, &live, m).is_ok()) {
+                agg.viol.push(("C09|live-collection-matches-no-serial-order-of-the-acknowledged-writes".into(), ctx(format!("live {} ; serial outcomes {:?}", vcore::dump_to_json(&live), allowed.iter().map(|m| format!("{:?}", m.docs.keys().collect::<Vec<_>>())).collect::<Vec<_>>()))));
                 return agg.viol.map.keys().all(|k| known.is_known(k));
             }
             match rec {
@@ -188,6 +283,17 @@ pub fn worker(wi: usize, wn: usize, tier: &str) {
             check_program(&cfg, &p, bound, max_execs, &mut agg);
         }
     }
+    for cfg in compaction_cfgs() {
+        for p in compaction_programs(tier) {
+            idx += 1;
+            if idx % wn != wi {
+                continue;
+            }
+            // "writer B is interrupted mid-call by a compaction that writer A started after
+            // passing the write gate" needs two preemptions whatever the thread order
+            check_program_init(&cfg, &p, "fulltomb", bound.max(2), max_execs.max(20_000), &mut agg);
+        }
+    }
     vcore::par::worker_emit(&json!({"programs":agg.programs,"executions":agg.executions,"points":agg.points,"capped":agg.capped,"deadlocks":agg.deadlocks,"nontrivial":agg.nontrivial,"violations":agg.viol.to_json()}));
 }
 
@@ -197,10 +303,11 @@ pub fn run(tier: &str, replay: Option<&str>) -> i32 {
         let c = &v["case"];
         let cfg: BackendCfg = serde_json::from_value(c["cfg"].clone()).unwrap();
         let names: Vec<Vec<String>> = serde_json::from_value(c["program"].clone()).unwrap();
-        for prog in programs("thorough") {
+        let init = c["init"].as_str().unwrap_or("two").to_string();
+        for prog in programs("thorough").into_iter().chain(compaction_programs("thorough")) {
             if pname(&prog) == names {
                 let mut agg = Agg::default();
-                check_program(&cfg, &prog, 2, 100_000, &mut agg);
+                check_program_init(&cfg, &prog, &init, 2, 100_000, &mut agg);
                 if let Some((s, r)) = agg.viol.any_first() {
                     println!("replay: reproduced {s}: {}", r["detail"]);
                     println!("VIOLATION property=C09 replay={p}");
@@ -232,7 +339,7 @@ pub fn run(tier: &str, replay: Option<&str>) -> i32 {
     ev.set("traces_validated_against_impl", tot["executions"]);
     ev.set("evaluations", tot["executions"]);
     ev.set("distinct_nontrivial", tot["nontrivial"]);
-    ev.set("rule", format!("programs: one or two writer threads (insert new / overwrite / delete / metadata update / batch delete, single and in pairs, with automatic snapshot triggers) x one or two threads issuing create_snapshot (once or twice), on a persistent HnswBackend with rotation threshold 1 byte, snapshot interval {{0,1,2}} and capacity {{3,64}}; every schedule with <= {bound} preemptions at lock granularity; after all calls returned the live dump is taken, the backend dropped, and strict recovery from the directory must succeed and reproduce the live dump bit for bit. non-trivial = executions with a preemption whose (live dump, manifest snapshot seq) differs from all preemption-free executions"));
+    ev.set("rule", format!("programs: one or two writer threads (insert new / overwrite / delete / metadata update / batch delete, single and in pairs, with automatic snapshot triggers) x one or two threads issuing create_snapshot (once or twice), on a persistent HnswBackend with rotation threshold 1 byte, snapshot interval {{0,1,2}} and capacity {{3,64}}; every schedule with <= {bound} preemptions (<= 2 for the compaction family) at lock granularity; plus the tombstone-compaction family (capacity-3 index that is full and holds a tombstone, so an insert of a new id runs compact_tombstones() and renumbers internal ids) racing delete / metadata update / overwrite / batch delete / snapshot; after all calls returned the live dump is taken and must equal the outcome of SOME serial order of the acknowledged writes, the backend is dropped, and strict recovery from the directory must succeed and reproduce the live dump bit for bit. non-trivial = executions with a preemption whose (live dump, manifest snapshot seq) differs from all preemption-free executions"));
     ev.set("samples", json!([{"program":[["I(3,...)","I(4,...)"],["SNAP","SNAP"]],"cfg":"euclidean/d2/cap64/snap2/rot1/never"}]));
     ev.set("exhaustive", tot["capped"] == 0);
     ev.set("programs", tot["programs"]);
